@@ -363,9 +363,40 @@ def do_filter_layouts(wd, res):
                                   f"({len(got[role][0])}/{len(got[role][1])} vs {len(ref[role][0])}/{len(ref[role][1])} records)", dict(argv=shown)))
 
 
+def do_stdin(wd, res):
+    """Input from standard input ('-'), plain and gzip-compressed, 1 and 2 cores (real processes): same records as from the file."""
+    V = res["viol"]
+    ind, outd = os.path.join(wd, "sin"), os.path.join(wd, "sout")
+    os.makedirs(ind, exist_ok=True)
+    os.makedirs(outd, exist_ok=True)
+    for fmt in ("fastq", "fasta"):
+        for cont in ("plain", "gz"):
+            path = write_inputs(ind, fmt, "single", cont)[0]
+            ext = ".fq" if fmt == "fastq" else ".fa"
+            ref_out = os.path.join(outd, "ref" + ext)
+            r = subprocess.run([common.PY, "-m", "cutadapt", "-a", "ad=ACGTACGG", "-o", ref_out, path], stdout=subprocess.PIPE, stderr=subprocess.PIPE)
+            if r.returncode != 0:
+                V.append(("stdin:reference-failed", r.stderr.decode()[-150:], dict(format=fmt, container=cont)))
+                continue
+            ref = records_of(ref_out)
+            for cores in (1, 2):
+                out = os.path.join(outd, f"o{cores}" + ext)
+                res["evals"] += 1
+                res["nontrivial"] += 1
+                with open(path, "rb") as fh:
+                    r = subprocess.run([common.PY, "-m", "cutadapt", "-j", str(cores), "-a", "ad=ACGTACGG", "-o", out, "-"], stdin=fh,
+                                       stdout=subprocess.PIPE, stderr=subprocess.PIPE, timeout=60)
+                case = dict(format=fmt, container=cont, cores=cores, argv=["-j", str(cores), "-a", "ad=ACGTACGG", "-o", "out", "-"])
+                if r.returncode != 0:
+                    V.append(("stdin:failed", f"reading from standard input failed: {r.stderr.decode()[-150:]}", case))
+                elif records_of(out) != ref:
+                    V.append(("stdin:records", "records from standard input differ from those read from the file", case))
+
+
 def do_stdout(wd, res):
     """--fasta on standard output (real processes, 1 and 2 cores)."""
     V = res["viol"]
+    do_stdin(wd, res)
     ind = os.path.join(wd, "in")
     os.makedirs(ind, exist_ok=True)
     for layout in ("single", "interleaved"):
